@@ -86,7 +86,7 @@ def _check_gvii(case):
     ivs, si = case
     E = [(a, b, "x") for a, b in ivs]
     t = IT("t", E, 0, 4)
-    data = list(SERIES[si])
+    data = list(SERIES[si]) if si >= 0 else [(v, k) for k, v in enumerate(sorted(D.ULP))]  # -1: samples on the ulp-neighbour grid
     st, r, _ = call(t.getValuesInIntervals, list(data))
     if st == "exc":
         return 1, "X", None, [Viol("getValuesInIntervals-raised", f"{E} {data}: {r!r}")]
@@ -335,6 +335,18 @@ def parts(tier):
                     for pct, thr in ((0, 0), (0.5, 0), (0.25, 0), (1.0, 0), (0, 1.0), (0, 2.0), (0.5, 2.0), (0.25, 1.0)):
                         yield (a, b, c, d, incl, pct, thr)
 
+    U = tuple(sorted(D.ULP))
+
+    def gen_ovl_ulp():
+        for a, b, c, d in itertools.product(U, repeat=4):
+            if a < b and c < d:
+                for incl in (False, True):
+                    yield (a, b, c, d, incl, 0, 0)
+
+    def gen_gvii_ulp():
+        for s in D.interval_sets(U, 2):
+            yield (s, -1)
+
     def gen_inv():
         for s in sets:
             for lo in (None, 0.0, 1.0, -1.0):
@@ -361,6 +373,10 @@ def parts(tier):
                        "sample times): exact and fuzzy lookup" % (3 if quick else 4), bounds={}),
         InputPart("intervalOverlapCheck", gen_ovl, _check_overlap,
                   rule="all interval pairs on a 5-grid x boundaryInclusive x 8 threshold settings; non-trivial = distinct order types x settings", bounds={}),
+        InputPart("intervalOverlapCheck-ulp", gen_ovl_ulp, _check_overlap,
+                  rule="all interval pairs on the ulp-neighbour grid x boundaryInclusive: an overlap of one ulp is an overlap, a gap of one ulp is not a shared boundary", bounds={}),
+        InputPart("getValuesInIntervals-ulp", gen_gvii_ulp, _check_gvii,
+                  rule="interval sets and samples on the ulp-neighbour grid: start <= t <= end decided exactly", bounds={}),
         InputPart("invertIntervalList", gen_inv, _check_invert,
                   rule="all interval lists (<=3) x min in {None,0,1,-1} x max in {None,4,3,5}: complement within the bounds", bounds={}),
         InputPart("equality", gen_eq, _check_eq,
